@@ -36,6 +36,45 @@ type Cfg struct {
 	Collide bool   `json:"collide"`
 	Reinc   bool   `json:"reinc"`
 	Label   bool   `json:"label"` // both tasks carry the same label: (the state file is named after the label)
+	// Pat: how the same set of sources {a, b, (x)} is written down. "" '*.txt' ; brace '{a,b,x}.txt' ; list one entry
+	// per file ; sub 'sub/*.txt' (files in a sub-directory) ; rec '**/*.txt' (files in a sub-directory).
+	// A rendering variant: the specification talks about the set of files, not about its spelling.
+	Pat string `json:"pat,omitempty"`
+}
+
+var pats = []string{"", "brace", "list", "sub", "rec"}
+
+func (c Cfg) fileOf(f string) string {
+	if c.Pat == "sub" || c.Pat == "rec" {
+		return filepath.Join("sub", f+".txt")
+	}
+	return f + ".txt"
+}
+
+// sourcesYAML renders the sources: list of the fingerprinted tasks.
+func (c Cfg) sourcesYAML() string {
+	var b strings.Builder
+	b.WriteString("    sources:\n")
+	ex := "x.txt"
+	switch c.Pat {
+	case "brace":
+		b.WriteString("      - '{a,b,x}.txt'\n")
+	case "list":
+		b.WriteString("      - 'a.txt'\n      - b.txt\n      - './x.txt'\n")
+	case "sub":
+		b.WriteString("      - 'sub/*.txt'\n")
+		ex = "sub/x.txt"
+	case "rec":
+		b.WriteString("      - '**/*.txt'\n")
+		ex = "**/x.txt"
+	default:
+		b.WriteString("      - '*.txt'\n")
+	}
+	fmt.Fprintf(&b, "      - exclude: '%s'\n", ex)
+	if c.Reinc {
+		fmt.Fprintf(&b, "      - '%s'\n", c.fileOf("x"))
+	}
+	return b.String()
 }
 
 type Step struct {
@@ -116,10 +155,7 @@ func taskfile(c Cfg) string {
 	b.WriteString("version: '3'\nsilent: true\ntasks:\n")
 	t, u := names(c)
 	for _, n := range []string{t, u} {
-		fmt.Fprintf(&b, "  '%s':\n    desc: task %s\n    method: %s\n    sources:\n      - '*.txt'\n      - exclude: x.txt\n", n, n, c.Method)
-		if c.Reinc {
-			b.WriteString("      - 'x.txt'\n")
-		}
+		fmt.Fprintf(&b, "  '%s':\n    desc: task %s\n    method: %s\n%s", n, n, c.Method, c.sourcesYAML())
 		if c.Gen {
 			b.WriteString("    generates: [out.gen]\n")
 		}
@@ -169,7 +205,6 @@ func snapshot(dir string) string {
 	return strings.Join(lines, "\n")
 }
 
-func fileOf(f string) string { return f + ".txt" }
 
 // Execute runs the history against the CLI and fills in the observations.
 func Execute(h *History) error {
@@ -179,13 +214,13 @@ func Execute(h *History) error {
 	}
 	defer os.RemoveAll(base)
 	proj, ctl, trace := filepath.Join(base, "proj"), filepath.Join(base, "ctl"), filepath.Join(base, "trace")
-	os.MkdirAll(proj, 0o755)
+	os.MkdirAll(filepath.Join(proj, "sub"), 0o755)
 	os.MkdirAll(ctl, 0o755)
 	os.WriteFile(trace, nil, 0o644)
 	os.WriteFile(filepath.Join(proj, "Taskfile.yml"), []byte(taskfile(h.Cfg)), 0o644)
 	old := time.Now().Add(-time.Hour)
 	for _, f := range []string{"a", "x"} {
-		p := filepath.Join(proj, fileOf(f))
+		p := filepath.Join(proj, h.Cfg.fileOf(f))
 		os.WriteFile(p, []byte("1\n"), 0o644)
 		os.Chtimes(p, old, old)
 	}
@@ -199,7 +234,7 @@ func Execute(h *History) error {
 	for i := range h.Steps {
 		s := &h.Steps[i]
 		tick()
-		p := filepath.Join(proj, fileOf(s.F))
+		p := filepath.Join(proj, h.Cfg.fileOf(s.F))
 		switch s.Op {
 		case "edit":
 			b, _ := os.ReadFile(p)
@@ -220,7 +255,7 @@ func Execute(h *History) error {
 		case "rm":
 			os.Remove(p)
 		case "ren":
-			os.Rename(p, filepath.Join(proj, fileOf(s.G)))
+			os.Rename(p, filepath.Join(proj, h.Cfg.fileOf(s.G)))
 		case "rmgen":
 			os.Remove(filepath.Join(proj, "out.gen"))
 		case "flip":
@@ -423,6 +458,7 @@ func Systematic() []History {
 	add := func(c Cfg, steps ...Step) {
 		if st, ok := valid(c, steps); ok {
 			n++
+			c.Pat = pats[(n+int(rep.Seed()))%len(pats)]
 			hs = append(hs, History{ID: fmt.Sprintf("s%d", n), Cfg: c, Steps: st})
 		}
 	}
@@ -452,6 +488,7 @@ func Random(r *rand.Rand, n int, maxLen int) []History {
 	var hs []History
 	for len(hs) < n {
 		c := cs[r.Intn(len(cs))]
+		c.Pat = pats[r.Intn(len(pats))]
 		w := &world{c: map[string]int{"a": 1, "b": 0, "x": 1}}
 		var steps []Step
 		L := 4 + r.Intn(maxLen-3)
@@ -554,7 +591,7 @@ func Pretty(h History) string {
 		}
 	}
 	c := h.Cfg
-	return fmt.Sprintf("[%s gen=%v status=%v prompt=%v collide=%v reinclude-x=%v] %s", c.Method, c.Gen, c.Status, c.Prompt, c.Collide || c.Label, c.Reinc, strings.Join(p, " ; "))
+	return fmt.Sprintf("[%s gen=%v status=%v prompt=%v collide=%v reinclude-x=%v sources-as=%q] %s", c.Method, c.Gen, c.Status, c.Prompt, c.Collide || c.Label, c.Reinc, c.Pat, strings.Join(p, " ; "))
 }
 
 var _ = runtime.NumCPU
